@@ -11,13 +11,15 @@ structure FPos where
 def piF : Float := 3.14159265358979323846264338327950288
 def toRad (x : Float) : Float := x * (piF / 180.0)
 
-/-- `haversine_distance` (after the repair: `x_long * x_long`) -/
+/-- `haversine_distance` (after the repairs: `x_long * x_long`, `1 - a` clamped at 0) -/
 def haversine (s o : Float × Float) : Float :=
   let lat1 := toRad s.1; let lat2 := toRad o.1; let lon1 := toRad s.2; let lon2 := toRad o.2
   let xLat := Float.sin ((lat2 - lat1) / 2.0)
   let xLon := Float.sin ((lon2 - lon1) / 2.0)
   let a := xLat * xLat + Float.cos lat1 * Float.cos lat2 * xLon * xLon
-  let c := 2.0 * Float.atan2 (Float.sqrt a) (Float.sqrt (1.0 - a))
+  let d := 1.0 - a
+  let d := if d < 0.0 then 0.0 else d          -- `fmax(1 - a, 0)` (after the repair)
+  let c := 2.0 * Float.atan2 (Float.sqrt a) (Float.sqrt d)
   6371.0 * c
 
 def geoF (rx : Float × Float) (range : Float) : Geo FPos Float where
